@@ -46,6 +46,8 @@ Readings (the weaker one where the statement leaves a choice):
   * solver options set before the solve (TraceStep, ParameterSolveInitialSteadyState) are part of the
     history; they never change what the table must be: the model's variables plus k and t, stated
     horizon + 1 rows.
+  * one EquationSolver object may parse and solve several blocks in a row: the table after a solve is
+    the table of THAT block (its variables plus k and t, its stated horizon + 1 rows).
   * GetSeriesList() is the mechanism, not the table: a wrong list alone is reported as DRIFT; the
     property is judged on the text of the tables.
 Names containing a tab or a newline are outside the explored space (no name of a model can).
@@ -255,10 +257,17 @@ def execute(beh, seed):
     stated = {}
     conds = []
     opts = {}
+    solver = None            # ONE solver object per history: a second block is parsed on the same object
+    block_vars = None
     for o in hist:
         op = o['op']
         name = name_of(o['name'])
-        if op == 'trace':
+        if op == 'block':
+            block_vars = [name_of(v) for v in o['vars']]
+            conds = []
+            stated.pop('block', None)      # the MaxTime line belongs to the text of the block
+            ev = {'ev': 'Block', 'vars': o['vars']}
+        elif op == 'trace':
             h_eff = stated.get('solver', stated.get('block', 0))
             step = rng.randint(1, h_eff) if o['place'] == 'inside' else h_eff + rng.randint(1, 3)
             opts['trace'] = step
@@ -311,13 +320,17 @@ def execute(beh, seed):
                 ev.update(ok=False, list=[])
         elif op == 'solve':
             ev = {'ev': 'Solve', 'used': -1, 'vs': [], 'must': True}
-            solver = None
             try:
-                text = solver_text(list(holder.keys()), holder, stated.get('block'), conds, rng,
-                                   steady=opts.get('steady', False))
-                solver = EquationSolver()
-                if 'solver' in stated:
-                    solver.MaxTime = stated['solver']      # stated on the solver object, before the text is parsed
+                if block_vars is None:
+                    text = solver_text(list(holder.keys()), holder, stated.get('block'), conds, rng,
+                                       steady=opts.get('steady', False))
+                else:
+                    text = solver_text(block_vars, {}, stated.get('block'), conds, rng,
+                                       steady=opts.get('steady', False))
+                if solver is None:
+                    solver = EquationSolver()
+                    if 'solver' in stated:
+                        solver.MaxTime = stated['solver']  # stated on the solver object, before the text is parsed
                 solver.ParseString(text)
                 if 'trace' in opts:
                     solver.TraceStep = opts['trace']
@@ -327,6 +340,7 @@ def execute(beh, seed):
                 ev.update(ok=True, used=int(solver.Parser.MaxTime))
             except Exception:
                 ev['ok'] = False
+            block_vars = None
             if solver is not None:
                 holder = solver.TimeSeries      # from now on the solver's holder is the holder
                 table_of = solver
@@ -372,7 +386,11 @@ def model_specs(tier, rng):
              {'model': 'SIM', 'block': 8, 'trace': 3}, {'model': 'SIMEX1', 'block': 5, 'trace': 9, 'steady': True},
              {'model': 'PC', 'block': 4, 'steady': True},
              {'block_text': 'lagged', 'block': 4, 'trace': 4}, {'block_text': 'loop', 'block': 6, 'trace': 1, 'steady': True},
-             {'block_text': 'steadyable', 'block': 3, 'steady': True}, {'block_text': 'loop', 'solver': 3, 'trace': 7}]
+             {'block_text': 'steadyable', 'block': 3, 'steady': True}, {'block_text': 'loop', 'solver': 3, 'trace': 7},
+             # one solver object, two blocks in a row
+             {'block_text': 'plain', 'block': 4, 'first': {'block_text': 'mixed', 'block': 1}},
+             {'block_text': 'lagged', 'block': 2, 'first': {'block_text': 'loop', 'block': 5}},
+             {'block_text': 'loop', 'block': 3, 'first': {'block_text': 'loop', 'block': 0}}]
     if tier != 'quick':
         specs += [{'model': 'SIM', 'block': 100}, {'model': 'SIM', 'block': 1}, {'model': 'SIM', 'block': 0},
                   {'model': 'SIMEX1', 'block': 40}, {'model': 'PC', 'block': 3}, {'model': 'PC', 'block': 60},
@@ -393,6 +411,9 @@ def model_specs(tier, rng):
                     extra = rng.choice([None, [['zz', False]], [['x', True]], [['q', True], ['x', False]]])
                     if extra is not None:
                         spec['conds'] = extra
+                    if 'solver' not in spec and rng.random() < 0.4:
+                        spec['first'] = {'block_text': rng.choice(['mixed', 'loop', 'lagged', 'plain']),
+                                         'block': rng.randint(0, 6)}
                     if spec not in specs:
                         specs.append(spec)
     return specs
@@ -422,6 +443,24 @@ def execute_model(spec, wd):
     logged = None
     ok = True
     is_model = 'model' in spec
+    first_solver = None
+    if 'first' in spec and not is_model:
+        f = spec['first']
+        events.append({'ev': 'Horizon', 'place': 'block', 'h': f['block']})
+        first_ok = True
+        first_solver = EquationSolver()
+        try:
+            first_solver.ParseString(BLOCKS[f['block_text']] + '\nMaxTime = %d' % f['block'])
+            first_solver.SolveEquation()
+        except Exception:
+            first_ok = False
+        snap = snapshot(first_solver.TimeSeries)
+        ev = {'ev': 'Solve', 'used': int(first_solver.Parser.MaxTime), 'vs': snap['names'], 'ok': first_ok, 'must': False}
+        ev.update(snap)
+        events.append(ev)
+        events.append(render_event('g5', 'call-first-block', first_solver.TimeSeries,
+                                   lambda: first_solver.GenerateCSVtext()))
+        events.append({'ev': 'Block', 'vars': []})
     for n, spaced in spec.get('conds', []):
         events.append({'ev': 'Condition', 'name': codes(n), 'sp': bool(spaced)})
     if 'block' in spec:
@@ -468,7 +507,7 @@ def execute_model(spec, wd):
                 text += '\n%s%s(0) = %r' % (n, ' ' if spaced else '', 2.5 + i)
             if 'block' in spec:
                 text += '\nMaxTime = %d' % spec['block']
-            solver = EquationSolver()
+            solver = first_solver if first_solver is not None else EquationSolver()
             if 'solver' in spec:
                 solver.MaxTime = spec['solver']
             solver.ParseString(text)
@@ -528,7 +567,14 @@ def signature(clause, events):
     cond_keys = set()
     variables = set()
     options = set()
+    blocks_parsed = 0
+    solves = 0
     for ev in events:
+        if ev['ev'] == 'Block':
+            blocks_parsed += 1
+            stated.pop('block', None)
+        if ev['ev'] == 'Solve':
+            solves += 1
         if ev['ev'] == 'Trace':
             options.add('TraceStep-' + ev['place'])
         if ev['ev'] == 'Steady':
@@ -570,6 +616,8 @@ def signature(clause, events):
                 if any(ln > ev['rows'] for ln in ev['lens']) and \
                         any(n in cond_keys and n not in variables for n in short):
                     return 'rows-cut-by-the-series-of-an-initial-condition-without-equation'
+                if any(ln > ev['rows'] for ln in ev['lens']) and blocks_parsed and solves >= 2:
+                    return 'rows-cut-by-a-series-left-from-an-earlier-block-on-the-same-solver'
                 if any(ln > ev['rows'] for ln in ev['lens']) and options:
                     return 'rows-cut-by-a-short-series-after-solve-with-options:' + '+'.join(sorted(options))
                 where = '+'.join(sorted(stated)) or 'nowhere'
